@@ -598,11 +598,26 @@ func (c *Client) negotiateVersion(ctx context.Context) error {
 	if err := bi.Err(); err != nil {
 		return err
 	}
-	serverVersions := bi.ResponsePayload.(*payloads.DiscoverVersionsResponsePayload).ProtocolVersion
-	if len(serverVersions) == 0 {
+	pl, ok := bi.ResponsePayload.(*payloads.DiscoverVersionsResponsePayload)
+	if !ok {
+		return errors.New("Protocol version negotiation failed. Unexpected response payload")
+	}
+	// Adopt the highest version returned by the server that is also supported by the client,
+	// whatever the order of the server's list.
+	var version *kmip.ProtocolVersion
+	for i := range pl.ProtocolVersion {
+		v := pl.ProtocolVersion[i]
+		if !slices.Contains(c.supportedVersions, v) {
+			continue
+		}
+		if version == nil || ttlv.CompareVersions(v, *version) > 0 {
+			version = &v
+		}
+	}
+	if version == nil {
 		return errors.New("Protocol version negotiation failed. No common version found")
 	}
-	c.version = &serverVersions[0]
+	c.version = version
 	return nil
 }
 
